@@ -72,6 +72,8 @@ def native_overlay(workdir, pkgdir, harness_files, extra=None):
             names.append(n)
             lines = []
             for tgt, stubfn in sorted(stubs.items()):
+                if MODULE not in tgt.split(')')[0].lstrip('(*'):
+                    continue   # standard-library targets are stubbed for the encoder only; natively the real function runs
                 if tgt not in targets:
                     targets[tgt] = len(targets)
                 lines.append('zzverifhooks.H[%d] = %s' % (targets[tgt], stubfn))
